@@ -27,12 +27,12 @@ PROPS = {
     "C16": {
         "level": "exploration",
         "technique": "runtime monitoring: per-functor invocation counters, thread-local 'inside this parallel_invoke call' marker for the last functor, counts checked right after tasks.wait()",
-        "level_text": "parallel_invoke calls of arity 1..8 (flat, idle and with all workers held + pool over its load factor so schedule() falls back to inline) and recursive divide-and-conquer trees (binary to depth 12 = 4096 leaves, random arity 1..8 to depth 7) sharing one ConcurrentTaskSet (kHeavy / kLightweight) with a single wait at the top, on pools 0..9, from an external thread or from inside a pool task. Every functor's count must be exactly 1 after wait(); the last functor of every call must have run on the calling thread while the call was active.",
+        "level_text": "parallel_invoke calls of arity 1..8 (flat, idle and with all workers held + pool over its load factor so schedule() falls back to inline) and recursive divide-and-conquer trees (binary to depth 12 = 4096 leaves, random arity 1..8 to depth 7) and left spines of depth 40..120 recursing through the non-last functor on a task set held over its inline threshold (so the inline depth cap of 32 is reached) sharing one ConcurrentTaskSet (kHeavy / kLightweight) with a single wait at the top, on pools 0..9, from an external thread or from inside a pool task. Every functor's count must be exactly 1 after wait(); the last functor of every call must have run on the calling thread while the call was active.",
         "level_note": "Arity and shape are enumerated/sampled; interleavings sampled.",
         "design_ref": "DESIGN.md §4 C16",
         "rule": "case = (shape, arities, pool, cost, caller, load); non-trivial = at least one parallel_invoke call with >= 3 tree nodes; distinct by spec + case index",
         "required_classes": ["shape:flat", "shape:binary", "shape:tree", "shape:flat-loaded", "arity:1", "arity:2", "arity:3", "arity:4", "arity:5", "arity:6", "arity:7", "arity:8",
-                             "pool0", "from-pool-task", "inline-fallback", "depth12", "cost:heavy", "cost:light"],
+                             "pool0", "from-pool-task", "inline-fallback", "depth12", "cost:heavy", "cost:light", "shape:spine-loaded", "spine:deeper-than-inline-cap"],
         "assumptions": _A,
         "runs": {
             "quick": [{"config": "plain", "shards": 16, "args": {"n": 512}}, {"config": "tsan", "shards": 16, "args": {"n": 128}}],
